@@ -14,6 +14,7 @@
 #include <stdlib.h>
 #include <string.h>
 #include <stdint.h>
+#include <unistd.h>
 static int hexv(int c) { return c <= '9' ? c - '0' : (c | 32) - 'a' + 10; }
 static uint64_t rng_s;
 static uint32_t rnd(void) { rng_s = rng_s * 6364136223846793005ULL + 1442695040888963407ULL; return (uint32_t)(rng_s >> 33); }
@@ -73,8 +74,22 @@ int main(void)
 		case 5: lzma_lzma_preset(&ol, preset); r = lzma_microlzma_encoder(&s, &ol); break;
 		}
 		if (r != LZMA_OK) { printf("%d -\n", (int)r); fflush(stdout); lzma_end(&s); if (have_f) lzma_filters_free(filters, NULL); continue; }
-		size_t ip = 0, op = 0; unsigned calls = 0; int finishing = 0, stall = 0;
+		size_t ip = 0, op = 0; unsigned calls = 0; int finishing = 0, stall = 0; int prog_ok = 1; uint64_t last_pi = 0, last_po = 0;
+		unsigned abort_after = (kind == 1 && (cfg >> 28) & 1) ? 1 + (unsigned)(seed % 23) : 0;
+		alarm(kind == 1 ? 10 : 60);
 		size_t outlimit = (kind == 5 && seed) ? (size_t)seed : OUTCAP;
+		if (abort_after) {
+			// hand everything to the workers with LZMA_FULL_BARRIER (returns as soon as the input is taken),
+			// wait a pseudo-random moment, then free the encoder while the workers may be in their last chunk
+			uint8_t *ib = malloc(n ? n : 1), *ob = malloc(1 << 20); memcpy(ib, in, n);
+			s.next_in = ib; s.avail_in = n; s.next_out = ob; s.avail_out = 1 << 20;
+			r = lzma_code(&s, LZMA_FULL_BARRIER);
+			usleep(rnd() % (abort_after * 150));
+			free(ib); free(ob);
+			printf("%d - P1\n", 55); fflush(stdout);
+			lzma_end(&s); alarm(0); if (have_f) lzma_filters_free(filters, NULL);
+			continue;
+		}
 		while (1) {
 			size_t il, ol_;
 			switch (mode) {
@@ -96,6 +111,11 @@ int main(void)
 			size_t di = il - s.avail_in, dd = ol_ - s.avail_out;
 			memcpy(out + op, ob, dd); ip += di; op += dd; calls++;
 			free(ib); free(ob);
+			if (kind == 1) { uint64_t pi, po; lzma_get_progress(&s, &pi, &po);
+				if (pi > ip || po > ((r == LZMA_STREAM_END) ? op : op + (64u << 20)) || pi < last_pi || po < last_po) prog_ok = 0;
+				if (r == LZMA_STREAM_END && (pi != ip || po != op)) prog_ok = 0;
+				last_pi = pi; last_po = po; }
+			if (abort_after && calls >= abort_after) { r = (lzma_ret)55; break; }
 			if (r == LZMA_BUF_ERROR) { if (++stall > 50) break; continue; }
 			if (r != LZMA_OK) break;
 			if (calls > 80000000) { r = 99; break; }
@@ -103,8 +123,9 @@ int main(void)
 		printf("%d ", (int)r);
 		if (kind == 5) printf("%llu ", (unsigned long long)s.total_in);
 		if (!op) printf("-"); for (size_t i = 0; i < op; i++) printf("%02x", out[i]);
+		if (kind == 1) printf(" P%d", prog_ok);
 		printf("\n"); fflush(stdout);
-		lzma_end(&s); if (have_f) lzma_filters_free(filters, NULL);
+		lzma_end(&s); alarm(0); if (have_f) lzma_filters_free(filters, NULL);
 	}
 	free(in); free(out);
 	return 0;
